@@ -1,13 +1,14 @@
 SPECIFICATION Spec
 CONSTANTS Spellings <- Spellings4
-          Probes <- ProbesAll
-          Unkeyed <- U9
-          CliOpts <- NoCli
-          CliEnvs <- NoCli
-          EnvOverridesOption <- Off
+          Probes <- ProbesSmall
+          Unkeyed <- NoFns
+          CliOpts <- CliO
+          CliEnvs <- CliE
+          EnvOverridesOption <- On
           MaxDepth = 4
 INVARIANT ModeDetermines
 INVARIANT CacheSound
 INVARIANT TypeOK
+INVARIANT CliSelects
 VIEW View
 CHECK_DEADLOCK FALSE
